@@ -836,7 +836,6 @@ fn c09_check_impl(c: &C09Case, c05_only: bool) -> Report {
   }
   let fail = |m: String| Some(format!("{} | {}", m, render_cc(&c.cc, &r)));
   let evs = ordered(&r.log.recs[0]);
-  let got: Vec<Rk> = evs.iter().map(|e| e.k.clone()).collect();
   rep.nontrivial = c.script.len() >= 2 && preempted(&r);
   // C05 (cross-thread): nothing for an emission that started after unsubscribe returned
   if let Some(&(ucall, uret)) = r.log.unsub_marks[0].first() {
